@@ -1,7 +1,8 @@
 //! further operations (evaluator, iterator, ranges, scopes) -- grown property by property
 use crate::util::*;
 use espada::card::Card;
-use espada::evaluator::MadeHand;
+use espada::evaluator::{MadeHand, Showdown};
+use espada::hand_range::CardPair;
 
 pub fn run_op2(op: &str, a: &[&str]) -> String {
     let n = |i: usize| -> usize { a[i].parse::<usize>().unwrap() };
@@ -25,8 +26,39 @@ pub fn run_op2(op: &str, a: &[&str]) -> String {
                 None => "panic".to_string(),
             }
         }
+        // showdown <debug-flag (ignored: the build profile decides)> <prob bits> b0..b4 p1a p1b p2a p2b ...
+        "showdown" => {
+            let prob = f32::from_bits(a[1].parse::<u32>().unwrap());
+            let board: [Card; 5] = [card_of(n(2)), card_of(n(3)), card_of(n(4)), card_of(n(5)), card_of(n(6))];
+            let mut players: Vec<CardPair> = vec![];
+            let mut i = 7;
+            while i + 1 < a.len() {
+                players.push(CardPair::new(card_of(n(i)), card_of(n(i + 1))));
+                i += 2;
+            }
+            match guarded(|| Showdown::new(players, board, prob).map(|sd| show_showdown(&sd))) {
+                Some(Some(s)) => s,
+                Some(None) => "none".to_string(),
+                None => "panic".to_string(),
+            }
+        }
         _ => format!("bad-op {}", op),
     }
+}
+
+/// canonical text of a showdown (same format as the model driver)
+pub fn show_showdown(sd: &Showdown) -> String {
+    let b: Vec<String> = sd.board().iter().map(|c| card_code(c).to_string()).collect();
+    let ps: Vec<String> = sd
+        .players()
+        .iter()
+        .map(|p| format!("{}:{}:{}", pair_code(&p.hole_cards()), p.hand().power_index(), p.is_winner() as u8))
+        .collect();
+    let wl = match guarded(|| sd.winner_len()) {
+        Some(n) => format!("ok {}", n),
+        None => "panic".to_string(),
+    };
+    format!("some board={} players={} wl={} prob={}", b.join(" "), ps.join(" "), wl, sd.probability().to_bits())
 }
 
 pub fn special(_cmd: &str, _args: &[String]) -> bool {
